@@ -23,9 +23,10 @@ type injection struct {
 	Stage string // load find parse resolve build generate
 	Must  string // reject | either
 	Pos   string // where a rejection has to point: note | method | any | none
-	Slot  string // note | method | field | file  (two injections of one case occupy different slots)
+	Slot  string // note | method | field | file | intf  (two injections of one case occupy different slots)
 	// concretisation
 	Note     string // notation line on method G3 (without "// ")
+	IntfNote string // notation lines in the doc comment of the converter interface (separated by \n)
 	Method   string // replaces the signature of G3
 	Decls    string // extra declarations (referenced functions)
 	SrcField string
@@ -92,6 +93,21 @@ func injCatalogue(seed int64, nSoup int) []injection {
 	}
 	c = append(c, injection{ID: "conv_second_result_not_error", Stage: "resolve", Must: "reject", Pos: "note", Slot: "note", Note: ":conv CvII2 A",
 		Decls: "func CvII2(a int) (int, int) { return a, a }\n"})
+	// notations in the doc comment of the converter interface: every kind, valid there or not, alone and
+	// against a method that overrides or contradicts it
+	for _, n := range []struct{ id, intf, meth string }{
+		{"style_arg", ":style arg", ""}, {"style_bogus", ":style bogus", ""}, {"match_none", ":match none", ""}, {"match_bogus", ":match bogus", ""},
+		{"case_off", ":case:off", ""}, {"getter", ":getter", ""}, {"stringer_typecast", ":stringer\n:typecast", ""}, {"recv", ":recv x", ""},
+		{"reverse", ":reverse", ""}, {"style_arg_reverse", ":style arg\n:reverse", ""}, {"skip", ":skip A", ""}, {"skip_badregexp", ":skip /[/", ""},
+		{"map", ":map A B", ""}, {"map_one", ":map A", ""}, {"conv", ":conv CvOK A", ""}, {"conv_missing", ":conv NoSuchFunc A", ""}, {"literal", ":literal A 1", ""},
+		{"pre_missing", ":preprocess NoSuchFunc", ""}, {"post_missing", ":postprocess NoSuchFunc", ""}, {"unknown", ":frobnicate x", ""},
+		{"convergen_junk", ":convergen junk", ""}, {"colon", ":", ""}, {"dollar", ":map $2 A", ""},
+		{"style_arg_reverse_vs_return", ":style arg\n:reverse", ":style return"}, {"reverse_vs_style_arg", ":reverse", ":style arg"},
+		{"style_arg_vs_reverse", ":style arg", ":reverse"}, {"recv_vs_recv_keyword", ":recv x", ":recv type"}, {"style_arg_recv_vs_reverse", ":style arg\n:recv x", ":reverse"},
+		{"match_none_vs_bogus", ":match none", ":match bogus"}, {"skip_vs_map", ":skip A", ":map B A"}, {"case_off_vs_skip", ":case:off", ":skip a"},
+	} {
+		c = append(c, injection{ID: "intf_" + n.id, Stage: "parse", Must: "either", Pos: "note", Slot: "intf", IntfNote: n.intf, Note: n.meth, Solo: n.meth != ""})
+	}
 	// getter methods of every arity in the source position of :map and :conv
 	for p := 0; p <= 1; p++ {
 		for r := 0; r <= 3; r++ {
@@ -260,11 +276,14 @@ func CvOK(i int) int { return i }
 
 // c14Render builds the files of a case and returns them with the line numbers of the injected note and of method G3.
 func c14Render(injs []injection) (files map[string]string, noteLine, methodLine int, funcs []string) {
-	var note, method, decls, sf, df, file string
+	var note, method, decls, sf, df, file, intfNote string
 	method = "G3(*BS) *BD"
 	for _, i := range injs {
 		if i.Note != "" {
 			note = i.Note
+		}
+		if i.IntfNote != "" {
+			intfNote = i.IntfNote
 		}
 		if i.Method != "" {
 			method = i.Method
@@ -297,6 +316,15 @@ func c14Render(injs []injection) (files map[string]string, noteLine, methodLine 
 		w("\t" + method + "\n")
 	}
 	funcs = []string{"G1", "G2", "G3"}
+	if intfNote != "" && (file == "" || file == "embedded_interface" || file == "interface_with_type_set") {
+		if file == "embedded_interface" {
+			// the notations belong to the converter interface, which comes second in that form: see below
+		} else {
+			for _, l := range strings.Split(intfNote, "\n") {
+				w("// " + l + "\n")
+			}
+		}
+	}
 	switch file {
 	case "":
 		w("type Convergen interface {\n")
@@ -307,7 +335,13 @@ func c14Render(injs []injection) (files map[string]string, noteLine, methodLine 
 		body()
 		w("\t}\n\n\tAfter string\n)\n")
 	case "embedded_interface":
-		w("type Base interface {\n\tG0(*BS) *BD\n}\n\ntype Convergen interface {\n\tBase\n")
+		w("type Base interface {\n\tG0(*BS) *BD\n}\n\n")
+		if intfNote != "" {
+			for _, l := range strings.Split(intfNote, "\n") {
+				w("// " + l + "\n")
+			}
+		}
+		w("type Convergen interface {\n\tBase\n")
 		body()
 		w("}\n")
 		funcs = append(funcs, "G0")
@@ -433,6 +467,8 @@ func C14(c *core.Ctx) {
 			var parts []string
 			for _, i := range r.injs {
 				switch {
+				case i.IntfNote != "":
+					parts = append(parts, fmt.Sprintf("%s[interface doc: %s; method: %s]", i.ID, strings.ReplaceAll(i.IntfNote, "\n", " | "), i.Note))
 				case i.Note != "":
 					parts = append(parts, fmt.Sprintf("%s[// %s]", i.ID, i.Note))
 				case i.Method != "":
@@ -473,8 +509,14 @@ func C14(c *core.Ctx) {
 			// position: only when every injection of the case is a notation / method injection
 			posDemanded := true
 			for _, i := range r.injs {
-				if i.Slot != "note" && i.Slot != "method" {
+				if i.Slot != "note" && i.Slot != "method" && i.Slot != "intf" {
 					posDemanded = false
+				}
+			}
+			intfCase := false
+			for _, i := range r.injs {
+				if i.Slot == "intf" {
+					intfCase = true
 				}
 			}
 			if posDemanded && strings.TrimSpace(res.Stderr) != "" {
@@ -484,6 +526,10 @@ func C14(c *core.Ctx) {
 					ln, _ := strconv.Atoi(m[2])
 					// the offending item: the notation, its method, or the interface declaration
 					if (r.noteLine != 0 && ln == r.noteLine) || ln == r.methodLine || ln == 5 {
+						ok = true
+					}
+					// notations of the interface doc: the notation itself, the interface, or a method that inherits it
+					if intfCase && ln >= 5 && ln <= r.methodLine {
 						ok = true
 					}
 				}
@@ -523,7 +569,7 @@ func C14(c *core.Ctx) {
 			c.Sample(map[string]any{"injections": runs[j].b.Inj, "permitted": runs[j].b.Permitted, "setup": runs[j].files["setup.go"]})
 		}
 	}
-	c.Set("rule", "a valid three-method base program plus one injection (all of the catalogue) or two injections in different slots (seeded sample): malformed / misplaced / unknown notations, seeded byte soup in notation position, converters with 0..3 parameters x 0..3 results, hooks with 0..4 parameters x 0..2 results, non-functions, missing names, 26 method shapes (no parameter / result, non-struct, **T, error / interface / func / chan operands, variadic, undefined types), 21 field shapes (error, interface, func, chan, map, array, anonymous, recursive pointer, embedded pointer...), 7 whole-file forms (grouped declaration, embedded interface, empty interface, alias, no converter interface); BadInput.tla computes the permitted outcomes; the process must end within 10 s without crash, rejection needs a message (positioned at the notation / method for those injections), success must not drop a method. Distinct = distinct injection kinds exercised")
+	c.Set("rule", "a valid three-method base program plus one injection (all of the catalogue) or two injections in different slots (seeded sample): malformed / misplaced / unknown notations, seeded byte soup in notation position, converters with 0..3 parameters x 0..3 results, hooks with 0..4 parameters x 0..2 results, non-functions, missing names, 26 method shapes (no parameter / result, non-struct, **T, error / interface / func / chan operands, variadic, undefined types), 21 field shapes (error, interface, func, chan, map, array, anonymous, recursive pointer, embedded pointer...), 31 notation sets in the doc comment of the converter interface (every kind, alone and against a method that overrides or contradicts it), 7 whole-file forms (grouped declaration, embedded interface, empty interface, alias, no converter interface); BadInput.tla computes the permitted outcomes; the process must end within 10 s without crash, rejection needs a message (positioned at the notation / method for those injections), success must not drop a method. Distinct = distinct injection kinds exercised")
 }
 
 func c14Deviation(injs []injection, problems []string) string { return "" }
